@@ -1,4 +1,4 @@
-CONSTANT MaxGen = 12
+CONSTANT MaxGen = 6
 CONSTANT NDig = 12
 CONSTANT MaxRevs = 1000
 CONSTANT MaxSteps = 1000000
